@@ -349,6 +349,8 @@ var rsaCfg = map[string]struct {
 	"RSA2047_F4":     {2047, 65537},
 	"RSA2048_E3":     {2048, 3}, // exponent other than 65537
 	"RSA2048_E65539": {2048, 65539},
+	"RSA2048_E17":    {2048, 17},
+	"RSA2048_EMAX":   {2048, 2147483647}, // 2^31-1 (prime): the largest exponent crypto/rsa represents
 }
 
 func rsaRawKeys(name string) [2]*rsa.PrivateKey {
